@@ -108,6 +108,8 @@ Definition tbl_ff : list entry := [
   ("ff_inject0", a2 d_ff d_nat (fun f b => e_ff (ff_inject0 f b)));
   ("ff_inject1", a2 d_ff d_nat (fun f a => e_ff (ff_inject1 f a)));
   ("ff_initial", a1 d_nat (fun a => e_ff (ff_initial a)));
+  (* Coproduct::initial_object() and Monoidal::unit() of finite functions: the object 0 *)
+  ("ff_unit_objects", (fun args => match args with [] => L [N 0; N 0] | _ => Sy "badcase" end));
   ("ff_to_initial", a1 d_ff (fun f => e_ff (ff_to_initial f)));
   ("ff_identity", a1 d_nat (fun a => e_rff (ff_identity a)));
   ("ff_compose", a2 d_ff d_ff (fun f g => e_roff (ff_compose f g)));
@@ -561,6 +563,8 @@ Fixpoint ev (B : Backend) (x : sx) {struct x} : res (option val) :=
   match x with
   (* strict *)
   | L [Sy "s"; f] => match d_ohg f with Some f' => Ok (Some (VS f')) | None => Panic end
+  | L [Sy "sunit"] => lift_s (ohg_identity nat [])      (* identity on Monoidal::unit() *)
+  | L [Sy "lunit"] => Ok (Some (VL (lohg_identity nat [])))
   | L [Sy "sid"; w] => match d_nats w with Some w' => lift_s (ohg_identity nat w') | None => Panic end
   | L [Sy "stwist"; a; b] =>
       match d_nats a, d_nats b with Some a', Some b' => lift_s (ohg_twist nat a' b') | _, _ => Panic end
